@@ -169,9 +169,16 @@ def run(chk):
                 st[n] = fresh() if rng.chance(9, 10) else None
         for n in ("pkgExe", "pkgCfg", "pkgEbpf", "pkgUnit"):
             st[n] = fresh(bad=(n == "pkgExe" and rng.chance(1, 12))) if rng.chance(14, 15) else None
-        if rng.chance(1, 3):
+        if rng.chance(1, 2):
             for n in ("bakExe", "bakCfg", "bakEbpf", "bakUnit"):
                 st[n] = fresh() if rng.chance(5, 6) else None
+            if installed and st["sysExe"] is not None and rng.chance(1, 2):
+                # a backup an earlier `restore` kept (or a purge that never ran): the same agent version as the one installed, while
+                # the configuration / unit file have been edited since
+                st["bakExe"] = st["sysExe"]
+                if rng.chance(1, 2):
+                    st["bakEbpf"] = st["sysEbpf"]
+                chk.count("initial_backup_of_the_installed_version")
         # start from a clean tool dir backup
         shutil.rmtree(os.path.join(w.tool, "ProxyAgent", "Backup"), ignore_errors=True)
         for n in ORDER:
@@ -180,7 +187,16 @@ def run(chk):
         open(os.path.join(w.tool, "ProxyAgent", "unrelated.txt"), "w").write("keep %d" % s)
         open("/etc/azure/unrelated.conf", "w").write("keep %d" % s)
         seq = [rng.pick(list(CMDS)) for _ in range(rng.rand_range(1, 8))]
-        if rng.chance(1, 3):
+        if s < 4:
+            # fixed first sequences: everything installed, a complete package, and a kept backup of the SAME agent version whose other
+            # files differ from the installed ones (edited since); upgrade and roll back
+            for n in ("sysExe", "sysCfg", "sysEbpf", "sysUnit", "pkgExe", "pkgCfg", "pkgEbpf", "pkgUnit", "bakCfg", "bakEbpf", "bakUnit"):
+                st[n] = fresh()
+                w.put(n, st[n])
+            st["bakExe"] = st["sysExe"] if s % 2 == 0 else fresh()
+            w.put("bakExe", st["bakExe"])
+            seq = ["backup", "install", "restore1" if s < 2 else "restore0"] + seq[:2]
+        elif rng.chance(1, 3):
             seq = ["backup", "install", rng.pick(["restore1", "restore0"])] + seq[:3]
         for cmd in seq:
             before = w.state()
